@@ -4,7 +4,7 @@ import json, glob, os, re
 CAUGHT = {
  "C01a": "C01: an error fails to render (`render-panic`) on mutated corpus inputs under the `lenient` option vector (crop radius 3); also C17",
  "C02a": "C02 `TV_LiveEvents` (aliased read differs from the expansion)",
- "C03a": "C03 `TV_MapAccess` (merge precedence)",
+ "C03a": "C03 `TV_MapAccess` (merge precedence), `TR_MapAccess`, `TV_TypedMerge`",
  "C04a": "C04 `TV_MapAccess` (duplicate composite key not detected)",
  "C05a": "superseded: the pinned tree had the same class of defect, repaired by `a8f00a1`; C05 rejects both",
  "C06a": "C06 `TV_Scalars` (rebased)", "C07a": "C07 `TV_Budget` (rebased)", "C08a": "C08 `TV_Bounds`",
@@ -35,6 +35,9 @@ CAUGHT = {
  "C10c": "C10 `TV_ReaderInput` kind `enc`: the cap against UTF-8-with-BOM and UTF-16 inputs (`cap-ignored`, `value-from-truncated-input`; added for it)",
  "C11c": "not a violation under the property as stated: it changes whether iteration goes on after an unknown-alias error, which the crate itself classifies as a scan error; `Stream!IterAdmissible` admits both (see 0.5 note)",
  "C18c": "C18 `TV_PathMap` on documents whose Outer mapping takes whole nested values from a `<<` base (added for it)",
+ "C04d": "C04 `TR_MapAccess` (duplicate decision on quoted / plain look-alike keys) and `TV_MapAccess`", "C07d": "C07 `TV_Budget` and `TR_Budget` (key / value phase after a complex key)",
+ "C13d": "C13 `TV_Emitter` (random values: variant with a map payload as the value of a composite key)", "C14d": "C14 `TV_AnchorStore` (chains with several back edges)",
+ "C20d": "C20 `TV_Emitter` (Commented empty sequence as a mapping value)",
  "C16a": "C16 `TV_Locations` (`merged-entry-not-attributed-to-its-merge`)", "C17a": "C17 `TV_Snippet` (`ring` family)",
  "C18a": "C18 `TV_PathMap` through the Display channels", "C19a": "C19 `TV_Robotics` (`wrong-value`)", "C20a": "C20 `TV_Emitter`",
 }
